@@ -231,3 +231,24 @@ def _factory_resolves(ctx: Ctx):
     if "cls._factory" not in src:
         return False, "BaseSid.__new__ no longer reads cls._factory"
     return True, f"_factory -> {fac.qualname}"
+
+
+@cond("path_resolve_guarded")
+def _path_resolve_guarded(ctx: Ctx):
+    ok, d = holds(ctx, "sid_resolver_no_dupcheck")
+    if not ok:
+        return ok, d
+    f = ctx.p.function("spil.sid.pathops.fs_resolver.path_to_dict")
+    n = 0
+    for call in own_nodes(f.node):
+        if isinstance(call, ast.Call) and isinstance(call.func, ast.Attribute) and call.func.attr in ("resolve_first", "resolve_one", "resolve_all"):
+            n += 1
+            if not ctx.ef.caught_locally(f, call, "ResolvaException"):
+                return False, f"path_to_dict: `{norm(call)[:50]}` can raise ResolvaException (a path whose repeated fields disagree) and " \
+                              f"nothing in path_to_dict catches it"
+    if n == 0:
+        return False, "path_to_dict no longer resolves through the path resolver"
+    ok2, d2 = holds(ctx, "path_segments_unambiguous")
+    if not ok2:
+        return False, d2
+    return True, f"{n} resolve call(s) of path_to_dict inside try/except ResolvaException; re-format of one dictionary cannot disagree"
